@@ -905,6 +905,7 @@ func (wallet *Wallet) ProcWalletSetPasswd(Passwd *types.ReqWalletSetPasswd) erro
 	}
 	//保存钱包的锁状态，需要暂时的解锁，函数退出时再恢复回去
 	tempislock := atomic.LoadInt32(&wallet.isWalletLocked)
+	verifGate(wallet, "setpasswd.loaded")
 	//wallet.isWalletLocked = false
 	atomic.CompareAndSwapInt32(&wallet.isWalletLocked, 1, 0)
 
@@ -912,6 +913,7 @@ func (wallet *Wallet) ProcWalletSetPasswd(Passwd *types.ReqWalletSetPasswd) erro
 		//wallet.isWalletLocked = tempislock
 		atomic.CompareAndSwapInt32(&wallet.isWalletLocked, 0, tempislock)
 	}()
+	verifGate(wallet, "setpasswd.tempunlocked")
 
 	// 钱包已经加密需要验证oldpass的正确性
 	if len(wallet.Password) == 0 && wallet.EncryptFlag == 1 {
